@@ -150,3 +150,12 @@ package asset
 //@ ensures[C10] "rows-in-order" result == nil ==> (forall k :: 0 <= k && k < len(snapshots) ==> execarg(s.appendQuery, 0, old(nexec(s.appendQuery)) + k, name) == name && execarg(s.appendQuery, 1, old(nexec(s.appendQuery)) + k, snapshots[k].Date) == snapshots[k].Date && execarg(s.appendQuery, 5, old(nexec(s.appendQuery)) + k, snapshots[k].Close) == snapshots[k].Close)
 //@ loop#0 invariant nexec(s.appendQuery) == old(nexec(s.appendQuery)) + consumed(snapshots)
 //@ loop#0 invariant forall k :: 0 <= k && k < consumed(snapshots) ==> execarg(s.appendQuery, 0, old(nexec(s.appendQuery)) + k, name) == name && execarg(s.appendQuery, 1, old(nexec(s.appendQuery)) + k, snapshots[k].Date) == snapshots[k].Date && execarg(s.appendQuery, 5, old(nexec(s.appendQuery)) + k, snapshots[k].Close) == snapshots[k].Close
+
+// ---- TiingoRepository.GetSince relative to assumed contracts of net/http and encoding/json (C19) -------------------
+// a non-success HTTP status surfaces as an error; the stream is closed on every path; the decode loop terminates
+// (a successful Decode consumes input, a failed one ends the loop); decoded snapshots are delivered in order
+//@ func TiingoRepository.GetSince
+//@ ensures[C19] "stream-is-closed-on-every-path" result1 == nil ==> closed(result0)
+//@ guarantees[C19] "non-success-status-is-an-error" result1 == nil ==> res(http_Client_Do, 0, 0).StatusCode == 200
+//@ loop#0 invariant !closed(snapshots) && extrem(decoder) >= 0
+//@ loop#0 decreases extrem(decoder)
